@@ -874,8 +874,13 @@ class Gen:
                 return out + "\n" * m.group(0).count("\n")   # keep the line structure
             body, n = re.subn(rx, _sub, body)
             self.count(name, n)
+        # function-specific anchored rewrites; entries sharing a name are alternatives: exactly one
+        # match in total per name
+        hits = {}
         for name, rx, rep in c.rewrites:
             body, n = re.subn(rx, lambda m, rep=rep: m.expand(rep) + "\n" * m.group(0).count("\n"), body)
+            hits[name] = hits.get(name, 0) + n
+        for name, n in hits.items():
             if n != 1:
                 raise ExtractError(f"{relsrc}: {key}: function-specific rewrite {name} matched {n} times (anchor lost)")
             self.count(name)
@@ -903,6 +908,10 @@ class Gen:
                 while not (toks[sig[q]].kind == "punct" and toks[sig[q]].text == "|"):
                     q += 1
                 params = body[toks[sig[p]].start:toks[sig[q]].end]
+                if toks[sig[q + 1]].text == "-" and toks[sig[q + 2]].text == ">":
+                    # already carries an explicit specification (introduced by a rewrite)
+                    p = q + 1
+                    continue
                 # closure body: expression up to the matching ')' or ',' at depth 0
                 b0 = q + 1
                 depth = 0
